@@ -44,6 +44,8 @@ KERNELS = [
     # the point count of every curved primitive (statement form: defaulting idiom, guard, two assignments, if / else)
     ('num_subdivisions', 'laserpath.py', 'LaserPath', 'num_subdivisions', 'C13', ['cmd_rate_max', 'f', 'l_curve'],
      None, None),
+    # a list builder (loop + extend): the order of the adjacent passes of a Nasu waveguide
+    ('adj_scan_order', 'waveguide.py', 'NasuWaveguide', 'adj_scan_order', 'C08', ['adj_scan'], None, None),
 ]
 
 
@@ -196,6 +198,86 @@ def translate(src: str, cls: str, func: str) -> tuple[str, list[str], str]:
     raise Unsupported(f'{cls}.{func} not found')
 
 
+
+# ---- list builders: `L = []`, `L.append(e)`, `L.extend([...])`, `for i in range(a, b)`, `if / else`, `return L` ---------------
+def _nat(e, nat_names: set, params: set) -> str:
+    """Natural-number expression (range bounds, parities) over integer attributes and loop variables."""
+    if isinstance(e, ast.Constant) and isinstance(e.value, int) and not isinstance(e.value, bool) and e.value >= 0:
+        return str(e.value)
+    if isinstance(e, ast.Name) and e.id in nat_names:
+        return e.id
+    if isinstance(e, ast.Attribute) and isinstance(e.value, ast.Name) and e.value.id == 'self':
+        params.add(e.attr)
+        return e.attr
+    if isinstance(e, ast.BinOp) and isinstance(e.op, (ast.Add, ast.Mult, ast.FloorDiv, ast.Mod)):
+        op = {ast.Add: '+', ast.Mult: '*', ast.FloorDiv: '/', ast.Mod: '%'}[type(e.op)]
+        return f'({_nat(e.left, nat_names, params)} {op} {_nat(e.right, nat_names, params)})'
+    raise Unsupported('natural-number expression')
+
+
+def _elem(e, nat_names: set, params: set) -> str:
+    """Rational list element; loop variables / integer attributes are cast."""
+    if isinstance(e, ast.Constant):
+        return _lit(e.value)
+    if isinstance(e, ast.Name) and e.id in nat_names:
+        return f'(({e.id} : Nat) : Rat)'
+    if isinstance(e, ast.UnaryOp) and isinstance(e.op, ast.USub):
+        return f'(-{_elem(e.operand, nat_names, params)})'
+    if isinstance(e, ast.BinOp) and isinstance(e.op, (ast.Add, ast.Sub, ast.Mult, ast.Div)):
+        op = {ast.Add: '+', ast.Sub: '-', ast.Mult: '*', ast.Div: '/'}[type(e.op)]
+        return f'({_elem(e.left, nat_names, params)} {op} {_elem(e.right, nat_names, params)})'
+    raise Unsupported('list element')
+
+
+def _block(stmts, lname: str, nat_names: set, params: set) -> str:
+    parts = []
+    for st in stmts:
+        if isinstance(st, ast.Expr) and isinstance(st.value, ast.Call) and isinstance(st.value.func, ast.Attribute) and \
+                isinstance(st.value.func.value, ast.Name) and st.value.func.value.id == lname and len(st.value.args) == 1:
+            meth, arg = st.value.func.attr, st.value.args[0]
+            if meth == 'append':
+                parts.append(f'[{_elem(arg, nat_names, params)}]')
+            elif meth == 'extend' and isinstance(arg, ast.List):
+                parts.append('[' + ', '.join(_elem(x, nat_names, params) for x in arg.elts) + ']')
+            else:
+                raise Unsupported(f'list method {meth}')
+        elif isinstance(st, ast.For) and isinstance(st.target, ast.Name) and isinstance(st.iter, ast.Call) and \
+                isinstance(st.iter.func, ast.Name) and st.iter.func.id == 'range' and len(st.iter.args) == 2 and not st.orelse:
+            a, b = (_nat(x, nat_names, params) for x in st.iter.args)
+            i = st.target.id
+            body = _block(st.body, lname, nat_names | {i}, params)
+            parts.append(f'((List.range\' {a} ({b} - {a})).flatMap fun ({i} : Nat) => {body})')
+        elif isinstance(st, ast.If):
+            t = st.test
+            if isinstance(t, ast.Compare):
+                raise Unsupported('comparison in a list builder')
+            c = f'{_nat(t, nat_names, params)} ≠ 0'          # Python truthiness of an integer
+            parts.append(f'(if {c} then {_block(st.body, lname, nat_names, params)} else {_block(st.orelse, lname, nat_names, params)})')
+        elif isinstance(st, ast.Expr) and isinstance(st.value, ast.Constant):
+            continue
+        else:
+            raise Unsupported(f'statement {type(st).__name__} in a list builder')
+    return '(' + ' ++ '.join(parts) + ')' if parts else '([] : List Rat)'
+
+
+def translate_list(src: str, cls: str, func: str) -> tuple[str, list[str]]:
+    tree = ast.parse(src)
+    for node in tree.body:
+        if isinstance(node, ast.ClassDef) and node.name == cls:
+            for f in node.body:
+                if isinstance(f, ast.FunctionDef) and f.name == func:
+                    body = [st for st in f.body if not (isinstance(st, ast.Expr) and isinstance(st.value, ast.Constant))]
+                    if len(body) < 2 or not (isinstance(body[0], ast.Assign) and isinstance(body[0].value, ast.List) and not body[0].value.elts
+                                             and isinstance(body[0].targets[0], ast.Name)):
+                        raise Unsupported('does not start with an empty list')
+                    lname = body[0].targets[0].id
+                    if not (isinstance(body[-1], ast.Return) and isinstance(body[-1].value, ast.Name) and body[-1].value.id == lname):
+                        raise Unsupported('does not end with returning the list')
+                    params: set = set()
+                    return _block(body[1:-1], lname, set(), params), sorted(params)
+    raise Unsupported(f'{cls}.{func} not found')
+
+
 HEADER = '''-- GENERATED on every run by /verif/harness/py2lean.py from the Python source of /repo (arithmetic kernels of property {pid}).
 -- Do not edit: the definitions are a function of the repository working tree; the tie theorems compare them with the
 -- hand-written model.  A tie that stops checking is a broken proof obligation of {pid}.
@@ -204,8 +286,13 @@ import FemtoVerif.Model.TrenchProg
 import FemtoVerif.Model.Waveguide
 import FemtoVerif.Model.Gcode
 import FemtoVerif.Model.Sampling
+import FemtoVerif.Model.Writers
 import Mathlib.Tactic.Ring
 import Mathlib.Algebra.Order.Field.Rat
+
+set_option linter.unusedSimpArgs false
+set_option linter.unusedTactic false
+set_option linter.unreachableTactic false
 
 namespace Femto.Gen.{pid}
 '''
@@ -218,6 +305,24 @@ def regen(_path_unused: pathlib.Path | None = None) -> dict:
     for (lname, fn, cls, func, pid, expect, model, proof) in KERNELS:
         src = (core.REPO / 'src' / 'femto' / fn).read_text()
         try:
+            if lname == 'adj_scan_order':
+                lbody, lparams = translate_list(src, cls, func)
+                if lparams != ['adj_scan']:
+                    raise Unsupported(f'reads {lparams}')
+                text = (f'/-- `{cls}.{func}` as written in `{fn}` (loop and `extend` calls as `flatMap` over `range\'`) -/\n'
+                        f'def {lname} (adj_scan : Nat) : List Rat :=\n  {lbody}\n\n'
+                        f'theorem {lname}_tie (adj_scan : Nat) : {lname} adj_scan = Femto.Wr.adjScanOrder adj_scan := by\n'
+                        f'  unfold {lname} Femto.Wr.adjScanOrder\n'
+                        f'  rcases Nat.mod_two_eq_zero_or_one adj_scan with h | h\n'
+                        f'  all_goals first\n'
+                        f'    | (simp [h, List.range\'_eq_map_range, List.flatMap_map]; done)\n'
+                        f'    | (simp [h, List.range\'_eq_map_range, List.flatMap_map]; congr 1; funext a; simp [add_comm]; done)\n'
+                        f'    | (simp [h, List.range\'_eq_map_range, List.flatMap_map]; congr 1; funext a; simp; constructor <;> ring)\n'
+                        f'    | (simp [h, List.range\'_eq_map_range, List.flatMap_map]; congr 1; funext a; simp; ring)\n'
+                        f'    | (simp [h, List.range\'_eq_map_range, List.flatMap_map]; congr 1; funext a; congr 1 <;> (try congr 1) <;> ring)\n')
+                by_pid.setdefault(pid, []).append(text)
+                report['kernels'][f'{cls}.{func}'] = 'translated, tie theorem ' + lname + '_tie'
+                continue
             body, params, ty = translate(src, cls, func)
         except (Unsupported, SyntaxError) as e:
             report['kernels'][f'{cls}.{func}'] = f'correspondence-only ({e})'
